@@ -242,6 +242,16 @@ pub fn exec(line: &str, model: &mut Model) -> Option<Exec> {
                         if shown != expect { e.oracle_fail = Some(format!("decoded content differs from what the peer encoded: {} vs {}", shown, expect)); }
                         else if crcok != Some(true) { e.oracle_fail = Some("conformant bundle with the peer's CRC values fails crc_valid".into()); }
                         else if !same { e.oracle_fail = Some("conformant bundle does not re-encode to the received bytes".into()); }
+                        // the same item tree with some byte / text strings written in indefinite-length (chunked) form, which RFC
+                        // 9171 does not exclude for them: same content
+                        if e.oracle_fail.is_none() && line.len() % 4 == 2 {
+                            let mut r = Rng::new(line.len() as u64 * 7919 + bytes.len() as u64);
+                            let cb = crate::p_rx::chunk_strings(&mut r, &bytes);
+                            match no_panic(|| Bundle::try_from(cb.as_slice())) {
+                                Some(Ok(dt)) if show_bundle(&dt) == shown => {}
+                                other => e.oracle_fail = Some(format!("the same conformant bundle with chunked strings ({}) is not decoded to the same content: {:?}", clip(&hex(&cb)), other.map(|r| r.map(|x| show_bundle(&x))))),
+                            }
+                        }
                         // the same bundle behind semantic tags (RFC 8949 3.4; theorem C03.accepted_tagged): same content
                         if e.oracle_fail.is_none() && line.len() % 4 == 1 {
                             let tags: &[u8] = match line.len() % 5 { 0 => &[0xd9, 0xd9, 0xf7], 1 => &[0xd8, 0x18], 2 => &[0xc0], 3 => &[0xdb, 0, 0, 0, 0, 0, 0, 0, 1], _ => &[0xd9, 0xd9, 0xf7, 0xd8, 0x18, 0xc1] };
